@@ -4,7 +4,7 @@ import os, re, subprocess
 VERIF = os.path.dirname(os.path.dirname(os.path.abspath(__file__)))
 p = os.path.join(VERIF, "DESIGN.md")
 s = open(p).read()
-for tag, rx in (("b", r"C\d+b-\d"), ("c", r"C\d+c-\d"), ("d", r"C\d+d-\d"), ("e", r"C\d+e-\d"), ("f", r"C\d+f-\d"), ("g", r"C\d+g-\d"), ("h", r"C\d+h-\d"), ("i", r"C\d+i-\d")):
+for tag, rx in (("b", r"C\d+b-\d"), ("c", r"C\d+c-\d"), ("d", r"C\d+d-\d"), ("e", r"C\d+e-\d"), ("f", r"C\d+f-\d"), ("g", r"C\d+g-\d"), ("h", r"C\d+h-\d"), ("i", r"C\d+i-\d"), ("j", r"C\d+j-\d")):
     a, b = "<!-- seeded-table-%s -->" % tag, "<!-- /seeded-table-%s -->" % tag
     if a in s and b in s:
         tbl = subprocess.run(["python3", os.path.join(VERIF, "tools", "seeded_table.py"), rx], stdout=subprocess.PIPE, text=True).stdout
